@@ -13,5 +13,5 @@ CONSTANTS
   AddKinds = {"sub_error", "reject", "garbage", "badsig", "malsig"}
   RegKinds = {"same", "badsig", "garbage"}
 SPECIFICATION Spec
-INVARIANTS InvNeverLost InvExactlyOne InvDataForResend InvOneLoop InvNoFlood InvEndsUnreachable InvMapSound InvBadSig InvMisbehaving InvSurvives InvStore
+INVARIANTS InvNeverLost InvExactlyOne InvDataForResend InvOneLoop InvNoFlood InvEndsUnreachable InvMapSound InvManualRetryGate InvBadSig InvMisbehaving InvSurvives InvRegRecorded InvStore
 CHECK_DEADLOCK FALSE
